@@ -16,7 +16,8 @@ Expected(e, i) ==     \* expected value of obs[i]
       hi == PAD + e.off + e.n * e.w
   IN IF i >= lo /\ i <= hi THEN (IF ZeroFn(e.fn) THEN 0 ELSE FillByte(e.w, e.v, i - lo)) ELSE S(i)
 Why(e) ==
-  IF e.have # 1 THEN "ORACLE_no_observation"
+  IF e.have = 2 /\ e.storage = "local" THEN ""          \* the buffer never existed in memory (kept in registers / removed): nothing to erase, nothing to find
+  ELSE IF e.have # 1 THEN "ORACLE_no_observation"
   ELSE IF e.rc # 0 THEN "ORACLE_call_failed"
   ELSE LET lo == PAD + e.off + 1
            hi == PAD + e.off + e.n * e.w
